@@ -327,7 +327,7 @@ Qed.
 
 (* C15_payload_roundtrip *)
 Lemma parse_enc_payload a b raw :
-  i64_ok a -> i64_ok b -> raw_wf raw -> (N.of_nat (List.length raw) <= 60000000)%N ->
+  i64_ok a -> i64_ok b -> raw_wf raw -> (N.of_nat (List.length raw) <= 67108863)%N ->
   parse_payload (enc_payload a b raw) =
   match payload_check a b raw with
   | Ok (f, l, r) => P_Ok f l r
@@ -358,7 +358,7 @@ Qed.
 
 (* hence a value-level Learn and the byte payload ScyllaDB sends for it act alike *)
 Lemma step_bytes_enc s k a b raw known :
-  i64_ok a -> i64_ok b -> raw_wf raw -> (N.of_nat (List.length raw) <= 60000000)%N ->
+  i64_ok a -> i64_ok b -> raw_wf raw -> (N.of_nat (List.length raw) <= 67108863)%N ->
   step_bytes s k (enc_payload a b raw) known = step s (Learn k a b raw known).
 Proof.
   intros Ha Hb Hwf Hlen. unfold step_bytes. rewrite parse_enc_payload by assumption. cbn [step].
